@@ -18,6 +18,7 @@ inductive Mut where
   | event (id : Nat)
   | status (code id : Nat)
   | name (id : Nat)
+  | link (id : Nat)                         -- `AddLink` (ABI v2)
   | dur                                    -- `SetDuration`, called by `End`
   deriving DecidableEq, Repr
 
